@@ -126,8 +126,19 @@ class PG:
             return f"(lambda z: ext({self.uid()}, z) + {v})({self.atom()})"
         if c < 0.3:
             return f"sum([ext({self.uid()}, z) for z in it({self.uid()}, 2) if z != {v}])"
-        if c < 0.45:
+        if c < 0.38:
             return f"({self.atom()} if {self.atom()} else {self.atom()})"
+        if c < 0.45:
+            # and/or inside the arms / the test of a conditional expression: only
+            # the selected arm may be evaluated
+            op = self.r.choice([" and ", " or "])
+            arm = lambda: "(" + op.join(self.chain_atom() for _ in range(self.r.choice([2, 3]))) + ")"
+            return self.r.choice([
+                f"({arm()} if {self.atom()} else {self.atom()})",
+                f"({self.atom()} if {self.atom()} else {arm()})",
+                f"({arm()} if {arm()} else {arm()})",
+                f"(ext({self.uid()}, 1 // {v}) if {v} else {arm()})",
+            ])
         if c < 0.6:
             return f"(w := {self.atom()}) + w"
         if c < 0.7:
@@ -158,6 +169,10 @@ class PG:
             op = self.r.choice([" and ", " or "])
             n = self.r.choice([2, 2, 3, 3, 4, 5, 6, 7] if self.c.chains else [2, 2, 3, 4])
             if self.c.chains:
+                if self.r.random() < 0.2:
+                    a = op.join(self.chain_atom() for _ in range(self.r.choice([2, 3])))
+                    b = op.join(self.chain_atom() for _ in range(self.r.choice([2, 3])))
+                    return f"({a}) if {self.chain_atom()} else ({b})"
                 return op.join(self.chain_atom() for _ in range(n))
             if self.c.nested_boolop:
                 return op.join(self.expr(1) for _ in range(n))
